@@ -142,4 +142,6 @@ instance : (gs : List Game) → Decidable (WFGames gs)
 /-- the strict Lichess export: a blank line (or two) after every game, the last one included -/
 def LichessGames (gs : List Game) : Prop := WFGames gs ∧ ∀ g ∈ gs, 2 ≤ g.trailing
 
+instance (gs : List Game) : Decidable (LichessGames gs) := by unfold LichessGames; infer_instance
+
 end Inkayaku.PgnLayout
